@@ -217,16 +217,28 @@ Record case := mkCase {
   c_ed : list ed_entry;
   c_kes : list kes_entry;
   c_ops : list op;
-  c_outs : list (bool * bool * bool);        (* observed (ok, id_set, kes_called) per op *)
+  c_outs : list (bool * bool * bool);        (* observed (ok, both id fields = id afterwards, kes_called) per op *)
   c_final : list (bytes * bool * option N) }. (* observed final (pool, registered, cache) *)
 
-Definition out_eqb (o : outcome) (x : bool * bool * bool) : bool :=
-  let '(a, b, c) := x in Bool.eqb (o_ok o) a && Bool.eqb (o_id_set o) b && Bool.eqb (o_kes_called o) c.
+(* observable "after the call both id fields hold the message's id": true when
+   SetMessageID ran (step 1 passed) or when the object arrived that way - every
+   CBOR-decoded message does, DmqMessage.UnmarshalCBOR copies the wire id into
+   the legacy alias *)
+Definition both_id (m : msg) : bool :=
+  bytes_eqb (m_id m) (msg_id m) && bytes_eqb (m_legacy_id m) (msg_id m).
+Definition obs_id (o : op) (out : outcome) : bool :=
+  match o with
+  | Verify (Some m) _ => o_id_set out || both_id m
+  | _ => o_id_set out
+  end.
+
+Definition out_eqb (o : op) (out : outcome) (x : bool * bool * bool) : bool :=
+  let '(a, b, c) := x in Bool.eqb (o_ok out) a && Bool.eqb (obs_id o out) b && Bool.eqb (o_kes_called out) c.
 
 Fixpoint outs_eqb (evs : list (op * outcome)) (xs : list (bool * bool * bool)) : bool :=
   match evs, xs with
   | [], [] => true
-  | (_, o) :: r, x :: s => out_eqb o x && outs_eqb r s
+  | (o, out) :: r, x :: s => out_eqb o out x && outs_eqb r s
   | _, _ => false
   end.
 
